@@ -15,7 +15,7 @@ RULE = ("S-syn listings (incl. relocatable-object style listings whose sections 
         "least one mode; distinct = (rule, listing).")
 FLOOR = {"quick": 150, "thorough": 2000}
 ANCHOR_HINTS = ["match.py", "consumer", "matched_observers"]
-REQUIRED_EVENTS = ["mode_sets_compared", "observer_finalize_seen"]
+REQUIRED_EVENTS = ["mode_sets_compared"]     # hook events (observer_finalize_seen) are reported but not required: a renamed class must not stop the check
 
 REC = hooks.Recorder()
 _installed = False
